@@ -58,7 +58,7 @@ func init() {
 		"DESIGN.md §5 C04, §4.7",
 		[]string{"that the three libraries agree on the logical content of equivalent documents (anchors, dotted keys, dates)", "TOML date/time types"},
 		[]string{"go-toml/v2 v2.2.3 decodes integers into int64 and floats into float64 (checked against go.mod)."},
-		ruleC04Census, ruleC04Canon, ruleC04Float, ruleC04Normalised("C04.normalised"), ruleC04Ext, ruleC05All)
+		ruleC04Census, ruleC04Canon, ruleC04Fresh, ruleC04Float, ruleC04Normalised("C04.normalised"), ruleC04Ext, ruleC05All)
 
 	mk("C05", "Output round-trips in every format: what bkl writes reads back unchanged",
 		"interprocedural may-be-nil analysis of every map/slice boxed into a tree value (empty containers stay containers, never a typed nil that prints as null); census of the format table (writer and reader reach the same codec package), separator literals matched against the reader's splitter pattern, path-effect summaries of every stream encoder/decoder (no document lost), format-choice flow in cmd/bkl.main and the Output* methods",
@@ -122,7 +122,7 @@ func init() {
 		"DESIGN.md §5 C12",
 		[]string{"equality with the hand-expanded document (needs C13 on values)"},
 		nil,
-		ruleC12Loops, ruleC12Docs, ruleCloneContract("C12.copy"))
+		ruleC12Loops, ruleC12Docs, ruleCloneContract("C12.copy"), ruleC13Vars)
 
 	mk("C13", "Interpolation and $env substitute exactly the referenced values",
 		"path-effect summaries of process2String, the interpolation callback (captured error cell), getWithVar, GetVar, envVars; census of the interpolation pattern literal",
@@ -146,7 +146,7 @@ func init() {
 		"DESIGN.md §5 C15",
 		[]string{"over-deletion by partial $delete patterns", "multiset/ordering semantics of list diffs beyond the nil case", "the round trip in general"},
 		nil,
-		ruleC15Table, ruleC15Seq, ruleC15Compose, ruleC15Dir, ruleMarkerVocabulary("C15.vocab", map[string][]string{"cmd/bkld": {"$delete", "$replace", "$match"}}))
+		ruleC15Table, ruleC15Seq, ruleC15Compose, ruleC15Dir, ruleMarkerVocabulary("C15.vocab", map[string][]string{"cmd/bkld": {"$delete", "$replace", "$match"}}), ruleC01List)
 
 	mk("C16", "bkli yields the maximal common base, and the migrate workflow is lossless",
 		"path-effect summaries of intersect against the intersection table, may-be-nil analysis of every container boxed into the result, per-element accumulation (loop-exit analysis), left fold in main, marker literal agreement with the validator",
@@ -154,7 +154,7 @@ func init() {
 		"DESIGN.md §5 C16",
 		[]string{"maximality", "[] ∩ []", "the bkli + bkld + bkl round trip"},
 		nil,
-		ruleC16Table, ruleTypedNil("C16.typednil"), ruleC16Fold, ruleMarkerVocabulary("C16.marker", map[string][]string{"cmd/bkli": {"$required"}}), ruleValidate("C16"))
+		ruleC16Table, ruleTypedNil("C16.typednil"), ruleC16Fold, ruleMarkerVocabulary("C16.marker", map[string][]string{"cmd/bkli": {"$required"}}), ruleValidate("C16"), ruleC01List)
 
 	mk("C17", "bklr keeps exactly the $required skeleton and agrees with bkl on what is missing",
 		"path-effect summaries of required against the skeleton table; marker literal agreement between bklr and the evaluator's validator",
